@@ -167,24 +167,35 @@ def _rotate(same_second, runs=3):
     return None
 
 
-def c17_template(template="{name}-{ts:%Y%m%dT%H}.records", minutes=((22, 10), (22, 20))):
-    """one writer on an empty directory: every record is in the file its template names, nothing is renamed"""
+def c17_template(template="{name}-{ts:%Y%m%dT%H}.records", minutes=((22, 10), (22, 20)), relative=False):
+    """one writer on an empty directory: every record is in the file its template names, nothing is renamed
+    (relative: the template has no directory part and the empty directory is the working directory; template None: the writer's default template)"""
     from flow.record import PathTemplateWriter, RecordReader
 
     D = _desc()
+    cwd = os.getcwd()
     with tempfile.TemporaryDirectory() as td:
-        w = PathTemplateWriter(os.path.join(td, template), name="t")
-        expected = {}
-        for j, (hh, mm) in enumerate(minutes):
-            g = datetime.datetime(2017, 12, 6, hh, mm, tzinfo=UTC)
-            w.write(D(n=j, s=f"r{j}", _generated=g))
-            expected.setdefault(os.path.join(td, template).format(name="t", record=None, ts=g), []).append(f"r{j}")
-        w.close()
-        found = {}
-        for root, _, files in os.walk(td):
-            for f in files:
-                with RecordReader(os.path.join(root, f)) as rd:
-                    found[os.path.join(root, f)] = [r.s for r in rd]
+        try:
+            if relative:
+                os.chdir(td)
+            full = (lambda t: t) if relative else (lambda t: os.path.join(td, t))
+            w = PathTemplateWriter(full(template), name="t") if template else PathTemplateWriter(name="t")
+            expected = {}
+            for j, (hh, mm) in enumerate(minutes):
+                g = datetime.datetime(2017, 12, 6, hh, mm, tzinfo=UTC)
+                try:
+                    w.write(D(n=j, s=f"r{j}", _generated=g))
+                except Exception as e:
+                    return {"violates": True, "detail": f"write raised {type(e).__name__}: {e}"}
+                expected.setdefault(os.path.join(td, (template or "{name}-{ts:%Y%m%dT%H}.records.gz")).format(name="t", record=None, ts=g), []).append(f"r{j}")
+            w.close()
+            found = {}
+            for root, _, files in os.walk(td):
+                for f in files:
+                    with RecordReader(os.path.join(root, f)) as rd:
+                        found[os.path.join(root, f)] = [r.s for r in rd]
+        finally:
+            os.chdir(cwd)
     bad = None if found == expected else f"files on disk { {os.path.relpath(k, td): v for k, v in found.items()} }, the template names { {os.path.relpath(k, td): v for k, v in expected.items()} }"
     return {"violates": bool(bad), "detail": bad}
 
